@@ -1103,7 +1103,9 @@ def main():
             status, msg = replay_program(j)
             failed = status != "PASS"
             if status == "KNOWN":
-                msg = "known finding (by-value argument moved more than once)"
+                print("KNOWN-FINDING: property=%s the case shows a recorded "
+                      "finding (see known_findings.json)" % j["property"])
+                return 0
         else:
             exe = build(eng)
             failed, msg = replay_file(exe, args[1])
